@@ -31,7 +31,7 @@ pub fn run(prop: &str, data: &[u8]) -> Option<(Value, Verdict)> {
             (json!(c), guarded(|| c02::check(&c)))
         }
         "C03" => {
-            let c = c03::Case { input: B(rest.to_vec()), cfg: h[0] & 127, source: h[1] % 3, piece: h[2] % 9, pend: h[3] % 3, ns: h[0] & 128 != 0, skip: h[3] & 0xFC };
+            let c = c03::Case { input: B(rest.to_vec()), cfg: h[0] & 127, source: h[1] % 3, piece: h[2] % 9, pend: h[3] % 3, ns: h[0] & 128 != 0, skip: h[3] & 0xFC, raw: if h[2] & 0x80 != 0 { h[1] } else { 0 } };
             (json!(c), guarded(|| c03::check(&c)))
         }
         "C04" => {
@@ -45,7 +45,7 @@ pub fn run(prop: &str, data: &[u8]) -> Option<(Value, Verdict)> {
                     _ => c04::Item::Text,
                 })
                 .collect();
-            let c = c04::Case { items, cfg: h[0] & 127, flips: vec![(h[1] % 48, h[1] >> 6, h[2] & 1 == 1), (h[2] % 48, h[3] & 3, h[3] & 4 != 0)], buffered: h[0] & 128 != 0 };
+            let c = c04::Case { items, cfg: h[0] & 127, flips: vec![(h[1] % 48, h[1] >> 6, h[2] & 1 == 1), (h[2] % 48, h[3] & 3, h[3] & 4 != 0)], buffered: h[0] & 128 != 0, skips: if h[3] & 8 != 0 { vec![h[3] >> 4] } else { vec![] } };
             (json!(c), guarded(|| c04::check(&c)))
         }
         "C07" => {
